@@ -687,6 +687,8 @@ class Tr:
             return b, a, "uint"
         if k == "index":
             b, a, t = self.ex(f, e[1], env)
+            if t == "uint" and e[2][0] == "var" and e[2][1].startswith("i_"):
+                t = ("slice", "u64")               # desugared `for x in &mut u.limbs`
             if not (isinstance(t, tuple) and t[0] in ("slice", "arr")):
                 raise Unsupported("index into a non-slice")
             bi, ai, _ = self.ex(f, e[2], env, "usize")
@@ -1242,6 +1244,8 @@ class Tr:
         if tr_ == "uint":
             if m == "as_limbs":
                 return br, ar, ("slice", "u64")
+            if m == "len" and not args:           # only the desugared `for x in &mut u.limbs` produces this
+                return br, "(lenZ %s)" % paren(ar), "usize"
             m = self.opmethods.get(m, m)
             if "U." + m not in self.sigs:
                 raise Unsupported("Uint method ." + m)
@@ -1286,6 +1290,8 @@ class Tr:
             return br, "(ctz64 %s)" % paren(ar), "u32"
         if m == "trailing_ones" and tr_ == "u64":
             return br, "(ctz64 (B - 1 - %s))" % paren(ar), "u32"
+        if m == "reverse_bits" and tr_ == "u64":
+            return br, "(bitrev64 %s)" % paren(ar), "u64"
         if m == "count_ones" and tr_ == "u64":
             return br, "(popcnt64 %s)" % paren(ar), "u32"
         if m in ("high", "low", "split") and tr_ == "u128":
@@ -1354,6 +1360,11 @@ class Tr:
                     t0 = s[1][2][0]
                     while t0[0] == "un":
                         t0 = t0[2]
+                    lhs(t0)
+                if s[0] == "expr" and s[1][0] == "mcall" and s[1][2] == "reverse" and not s[1][3]:
+                    t0 = s[1][1]
+                    while t0[0] in ("un", "field"):
+                        t0 = t0[2] if t0[0] == "un" else t0[1]
                     lhs(t0)
                 if s[0] == "expr" and s[1][0] == "call" and s[1][1] == ("var", "swap") and len(s[1][2]) == 2:
                     for t0 in s[1][2]:
@@ -1430,6 +1441,8 @@ class Tr:
                 src = src[1]
             elif src[0] == "un" and src[1] in ("&", "*"):
                 src = src[2]
+            elif src[0] == "field" and src[2] == "limbs" and src[1][0] == "var":
+                src = src[1]                      # the limb array of a Uint variable
             else:
                 break
         if src[0] != "var":
@@ -1941,6 +1954,17 @@ class Tr:
                 while tgt[0] == "un" and tgt[1] in ("&", "*"):
                     tgt = tgt[2]
                 return self.stmts(f, [("assign", tgt, op, e[2][1])] + ss[i + 1:], 0, env, fin, retty)
+            if e[0] == "mcall" and e[2] == "reverse" and not e[3]:
+                # `xs.reverse()` on a slice variable or on `x.limbs` of a Uint variable
+                r0 = e[1]
+                if r0[0] == "field" and r0[2] == "limbs":
+                    r0 = r0[1]
+                if r0[0] != "var" or r0[1] not in env:
+                    raise Unsupported("reverse of a non-variable")
+                nm = r0[1]
+                env2_ = dict(env)
+                env2_[nm] = (nm, env[nm][1])
+                return "let %s := rev %s in\n  %s" % (nm, env[nm][0], rest(env2_))
             if e[0] == "mcall" and e[2] in ("copy_from_slice", "copy_within", "fill"):
                 recv = e[1]
                 f.impure = True
@@ -2233,6 +2257,7 @@ TARGETS = [
     ("src/modular.rs", UINT_IMPL, "pow_mod", "U.pow_mod", "g_pow_mod", "uint"),
     ("src/modular.rs", UINT_IMPL, "mul_redc", "U.mul_redc", "g_u_mul_redc", "uint"),
     ("src/modular.rs", UINT_IMPL, "square_redc", "U.square_redc", "g_u_square_redc", "uint"),
+    ("src/bits.rs", UINT_IMPL, "reverse_bits", "U.reverse_bits", "g_reverse_bits", "uint"),
     ("src/pow.rs", UINT_IMPL, "overflowing_pow", "U.overflowing_pow", "g_overflowing_pow", "uint"),
     ("src/pow.rs", UINT_IMPL, "checked_pow", "U.checked_pow", "g_checked_pow", "uint"),
     ("src/pow.rs", UINT_IMPL, "saturating_pow", "U.saturating_pow", "g_saturating_pow", "uint"),
